@@ -7,22 +7,52 @@ NLRI are their encoded sizes (`N := Nat`, `sz := id`).
 namespace Rc.Drv.C06
 open Rc Rc.Builder
 
-inductive Fam | v4u | v6u | v4ua | v6ua | v6fs | v4m | v6m | v4mpls
+/-- the 13 families -/
+inductive Base | v4u | v4m | v4mpls | v4vpn | v4rt | v4fs | v6u | v6m | v6mpls | v6vpn | v6fs | vpls | evpn
   deriving DecidableEq
 
-def famOf : String → Option Fam
-  | "v4u" => some .v4u | "v6u" => some .v6u | "v4ua" => some .v4ua
-  | "v6ua" => some .v6ua | "v6fs" => some .v6fs
-  | "v4m" => some .v4m | "v6m" => some .v6m | "v4mpls" => some .v4mpls | _ => none
+/-- an NLRI type: a family with (`ap`) or without path ids -/
+structure Fam where
+  b : Base
+  ap : Bool
 
-def sizeOk (f : Fam) (s : Nat) : Bool :=
-  match f with
+def baseOf : String → Option Base
+  | "v4u" => some .v4u | "v4m" => some .v4m | "v4mpls" => some .v4mpls | "v4vpn" => some .v4vpn
+  | "v4rt" => some .v4rt | "v4fs" => some .v4fs
+  | "v6u" => some .v6u | "v6m" => some .v6m | "v6mpls" => some .v6mpls | "v6vpn" => some .v6vpn
+  | "v6fs" => some .v6fs | "vpls" => some .vpls | "evpn" => some .evpn | _ => none
+
+/-- a family name, or a family name followed by `a` (ADD-PATH variant) -/
+def famOf (s : String) : Option Fam :=
+  match baseOf s with
+  | some b => some ⟨b, false⟩
+  | none =>
+    match s.toList.reverse with
+    | 'a' :: r =>
+      match baseOf (String.ofList r.reverse) with
+      | some b => some ⟨b, true⟩
+      | none => none
+    | _ => none
+
+/-- the encoded sizes an NLRI of the family can have (`compose_len()`), without the path id:
+prefix families 1 + 0..4 / 0..16 octets; labelled: length octet, 3-octet labels, prefix (at most
+255 bits); VPN: plus the 8-octet route distinguisher; route target 0..96 bits; FlowSpec one or
+two length octets (no 240-octet body with one, no one-octet IPv4 component list); VPLS 2 + 17;
+EVPN type, length, up to 255 octets -/
+def baseSizeOk (b : Base) (s : Nat) : Bool :=
+  match b with
   | .v4u | .v4m => 1 ≤ s && s ≤ 5
   | .v6u | .v6m => 1 ≤ s && s ≤ 17
-  | .v4mpls => 4 ≤ s && s ≤ 32
-  | .v4ua => 5 ≤ s && s ≤ 9
-  | .v6ua => 5 ≤ s && s ≤ 21
+  | .v4mpls | .v6mpls => 4 ≤ s && s ≤ 32
+  | .v4vpn | .v6vpn => 12 ≤ s && s ≤ 32
+  | .v4rt => 1 ≤ s && s ≤ 13
+  | .v4fs => s == 1 || (3 ≤ s && s ≤ 240) || (242 ≤ s && s ≤ 4097)
   | .v6fs => (1 ≤ s && s ≤ 240) || (242 ≤ s && s ≤ 4097)
+  | .vpls => s == 19
+  | .evpn => 2 ≤ s && s ≤ 257
+
+def sizeOk (f : Fam) (s : Nat) : Bool :=
+  if f.ap then 4 < s && baseSizeOk f.b (s - 4) else baseSizeOk f.b s
 
 def num (s : String) : Option Nat :=
   let cs := s.toList
@@ -45,16 +75,28 @@ def toks (f : Fam) : List String → Option (List Nat)
     | some a, some b => some (a ++ b)
     | _, _ => none
 
-/-- the family default stands for "`set_nexthop` not called" -/
-def nhOf (f : Fam) : String → Option NextHopArg
-  | "-" => some (.known (match f with
-      | .v4u | .v4ua | .v4m | .v4mpls => .v4
-      | .v6u | .v6ua | .v6m => .v6
-      | .v6fs => .empty))
-  | "v4" => some (.known .v4) | "m4" => some (.known .v4) | "v6" => some (.known .v6)
-  | "ll" => some (.known .ll) | "ll2" => some (.known .ll)
-  | "vpn4" => some (.known .vpn4) | "vpn6" => some (.known .vpn6) | "empty" => some (.known .empty)
-  | "unimpl" => some .unimplemented
+/-- the family default stands for "`set_nexthop` not called" (nexthop.rs:25 `NextHop::new(A::afi_safi())`) -/
+def defaultNh (f : Fam) : NextHop :=
+  match f.b with
+  | .v4u | .v4m | .v4mpls | .v4rt | .vpls | .evpn => .v4
+  | .v6u | .v6m | .v6mpls => .v6
+  | .v4vpn => .vpn4
+  | .v6vpn => .vpn6
+  | .v4fs | .v6fs => .empty
+
+/-- a next-hop token: the argument of `set_nexthop` (if it is called) and whether
+`set_nexthop_ll_addr` is called after it -/
+def nhOf : String → Option (Option NextHopArg × Bool)
+  | "-" => some (none, false)
+  | "v4" => some (some (.known .v4), false) | "m4" => some (some (.known .v4), false)
+  | "v6" => some (some (.known .v6), false)
+  | "ll" => some (some (.known .ll), false)
+  | "ll2" => some (some (.known .v6), true)
+  | "ll3" => some (none, true)
+  | "v4ll" => some (some (.known .v4), true)
+  | "vpn4" => some (some (.known .vpn4), false) | "vpn6" => some (some (.known .vpn6), false)
+  | "empty" => some (some (.known .empty), false)
+  | "unimpl" => some (some .unimplemented, false)
   | _ => none
 
 /-- tokens up to the first "ann" -/
@@ -79,22 +121,23 @@ def parse (ws : List String) : Option (String × Option (B Nat)) :=
           else if wt == ["e"] then some none
           else (toks f wt).map some
         let ann : Option (List Nat) := if at_ == ["-"] then some [] else toks f at_
-        match wd, ann, nhOf f k, num len with
-        | some wd, some ann, some nh, some al =>
+        match wd, ann, nhOf k, num len with
+        | some wd, some ann, some (arg, ll), some al =>
           if al == 1 || al == 2 then none else
           if op != "split" && op != "iter" && op != "take" && op != "single" then none else
           let b0 : B Nat := { wd := wd, ann := none, attrs := if al == 0 then [] else [al] }
-          -- set_nexthop (if a next hop is given), then the announcements
-          match (if k == "-" then some b0 else setMpNexthop b0 nh) with
+          -- set_nexthop (if a next hop is given), set_nexthop_ll_addr (if asked), then the announcements
+          let b1 : Option (B Nat) :=
+            match (match arg with | none => some b0 | some a => setMpNexthop b0 a) with
+            | none => none
+            | some b => if ll then setNexthopLl b else some b
+          match b1 with
           | none => some (op, none)
           | some b1 =>
-            let nhk := match nh with
-              | .known x => x
-              | .unimplemented => NextHop.empty
             let annB : Option (List Nat × NextHop) :=
               match b1.ann with
               | some (_, x) => some (ann, x)
-              | none => if ann.isEmpty then none else some (ann, nhk)
+              | none => if ann.isEmpty then none else some (ann, defaultNh f)
             some (op, some { b1 with ann := annB })
         | _, _, _, _ => none
       | _ => none
